@@ -196,18 +196,19 @@ Qed.
 (* ---------- whole patterns ---------- *)
 Definition PI (N : list tnode) (Sg : list word) (Pd : list word) : Prop :=
   TI N Sg /\ (forall p, In p Pd -> In p Sg) /\
-  (forall k x s, nth_error N k = Some x -> nth_error Sg k = Some s -> (t_out x <> [] <-> In s Pd)).
+  (forall k x s, nth_error N k = Some x -> nth_error Sg k = Some s -> (t_out x <> [] <-> In s Pd)) /\
+  (forall s, In s Sg -> s = [] \/ exists p, In p Pd /\ has_prefix s p).
 
 Lemma ins_pat_ok N Sg Pd p : PI N Sg Pd -> exists N' Sg', ins_pat N p = Ok N' /\ PI N' Sg' (p :: Pd).
 Proof.
-  intros [HT [Hin HO]]. pose proof HT as [HL [H0 _]].
-  destruct (ins_word_ok p N Sg 0 [] HT H0) as [N1 [ext [cur [Ei [HT1 [Ec [Ho [Hn _]]]]]]]].
+  intros [HT [Hin [HO Hpre]]]. pose proof HT as [HL [H0 _]].
+  destruct (ins_word_ok p N Sg 0 [] HT H0) as [N1 [ext [cur [Ei [HT1 [Ec [Ho [Hn Hext]]]]]]]].
   simpl in Ec. unfold ins_pat. rewrite Ei. cbn [bind].
   pose proof HT1 as [HL1 [_ [_ [_ [_ [HU1 _]]]]]].
   assert (Hcur : cur < length N1) by (rewrite <- HL1; apply nth_error_Some; congruence).
   destruct (nth_error N1 cur) as [nd|] eqn:End; [|apply nth_error_None in End; lia].
   rewrite (idx_Ok N1 cur nd End). cbn [bind].
-  eexists. exists (Sg ++ ext). split; [reflexivity|]. split; [apply TI_set_out; assumption|]. split.
+  eexists. exists (Sg ++ ext). split; [reflexivity|]. split; [apply TI_set_out; assumption|]. split; [|split].
   - intros q [<-|Hq]; [eapply nth_error_In; exact Ec|]. apply in_or_app. left. apply Hin. exact Hq.
   - intros k x s Ex Es. destruct (Nat.eq_dec k cur) as [->|Hne].
     + rewrite nth_error_upd_same in Ex by exact Hcur. inversion Ex; subst x. cbn [t_out].
@@ -224,6 +225,10 @@ Proof.
         apply Hin in H. apply In_nth_error in H. destruct H as [j Ej].
         assert (Hj : j < length Sg) by (apply nth_error_Some; congruence).
         assert (j = k); [|lia]. apply (nth_error_inj_NoDup (Sg ++ ext) j k s HU1); [rewrite nth_error_app1 by exact Hj; exact Ej|exact Es].
+  - intros s Hs. apply in_app_or in Hs. destruct Hs as [Hs|Hs].
+    + destruct (Hpre s Hs) as [->|[q [Hq Hp]]]; [left; reflexivity|right]. exists q. split; [right; exact Hq|exact Hp].
+    + destruct (Hext s Hs) as [j [Hj ->]]. right. exists p. split; [left; reflexivity|]. simpl.
+      exists (skipn j p). symmetry. apply firstn_skipn.
 Qed.
 
 Lemma ins_all_ok : forall pats N Sg Pd, PI N Sg Pd ->
@@ -238,7 +243,7 @@ Qed.
 
 Lemma PI_init : PI [empty_node] [[]] [].
 Proof.
-  split; [|split].
+  split; [|split; [|split]].
   - split; [reflexivity|]. split; [reflexivity|]. split; [|split; [|split; [|split]]].
     + intros k x a k' Ex Hin. destruct k as [|k]; [|destruct k; discriminate]. inversion Ex; subst x. destruct Hin.
     + intros k x Ex. destruct k as [|k]; [|destruct k; discriminate]. inversion Ex; subst x. constructor.
@@ -247,6 +252,7 @@ Proof.
     + intros k x Ex. destruct k as [|k]; [|destruct k; discriminate]. inversion Ex; subst x. reflexivity.
   - intros p [].
   - intros k x s Ex Es. destruct k as [|k]; [|destruct k; discriminate]. inversion Ex; subst x. simpl. split; [congruence|intros []].
+  - intros s [<-|[]]. left. reflexivity.
 Qed.
 
 (* the freshly built trie *)
@@ -255,17 +261,22 @@ Theorem trie_ok pats : exists N0 root, ins_all [empty_node] pats = Ok N0 /\ nth_
   (forall s s' k, nodeof N0 s = Some k -> nodeof N0 s' = Some k -> s = s') /\
   (forall k x, nth_error N0 k = Some x -> NoDup (map fst (t_succ x))) /\
   (forall p, In p pats -> inT N0 p) /\
-  (forall s k x, nodeof N0 s = Some k -> nth_error N0 k = Some x -> t_fail x = None /\ (t_out x <> [] <-> In s pats)).
+  (forall s k x, nodeof N0 s = Some k -> nth_error N0 k = Some x -> t_fail x = None /\ (t_out x <> [] <-> In s pats)) /\
+  (forall k, k < length N0 -> exists s, nodeof N0 s = Some k /\ (s = [] \/ exists p, In p pats /\ has_prefix s p)).
 Proof.
-  destruct (ins_all_ok pats [empty_node] [[]] [] PI_init) as [N0 [Sg [E [HT [Hin HO]]]]]. rewrite app_nil_r in *.
+  destruct (ins_all_ok pats [empty_node] [[]] [] PI_init) as [N0 [Sg [E [HT [Hin [HO Hpre]]]]]]. rewrite app_nil_r in *.
   pose proof HT as [HL [H0 [_ [HK [_ [_ HF]]]]]].
   assert (Hr : exists root, nth_error N0 0 = Some root).
   { destruct (nth_error N0 0) as [r|] eqn:Er; [exists r; reflexivity|]. apply nth_error_None in Er.
     assert (0 < length Sg) by (apply nth_error_Some; congruence). lia. }
   destruct Hr as [root Er]. exists N0, root. split; [exact E|]. split; [exact Er|].
   split; [intros s k; apply (TI_HV N0 Sg HT)|]. split; [intros s s' k; apply (TI_HI N0 Sg HT)|].
-  split; [exact HK|]. split.
+  split; [exact HK|]. split; [|split].
   - intros p Hp. apply (TI_inT N0 Sg HT). apply Hin. apply in_rev in Hp. exact Hp.
   - intros s k x Hk Ex. split; [eapply HF; exact Ex|]. apply (nodeof_S N0 Sg HT) in Hk.
     rewrite (HO k x s Ex Hk). rewrite <- in_rev. tauto.
+  - intros k Hk. rewrite <- HL in Hk. destruct (nth_error Sg k) as [s|] eqn:Es; [|apply nth_error_None in Es; lia].
+    exists s. split; [apply (nodeof_S N0 Sg HT); exact Es|].
+    destruct (Hpre s (nth_error_In _ _ Es)) as [->|[p [Hp Hs]]]; [left; reflexivity|right].
+    exists p. split; [apply in_rev; exact Hp|exact Hs].
 Qed.
